@@ -70,7 +70,7 @@ def tier_from_env(default='quick'):
 # SANY / TLC
 
 def _java(main, args, cwd, env=None, timeout=None, jvm=()):
-    cmd = ['java', '-XX:+UseParallelGC', *jvm, '-cp', TLA_CP, main, *args]
+    cmd = ['java', '-XX:+UseParallelGC', '-Xss64m', *jvm, '-cp', TLA_CP, main, *args]   # deep TLA+ recursion must never depend on JIT/load
     e = dict(os.environ)
     if env:
         e.update(env)
